@@ -65,6 +65,10 @@ def skeletons(v, tier):
            ("const-tuple", {}, ("tuple", [("int", -5, 5), ("const", None)])),
            ("const-frozenset", {}, ("frozenset", [("const", 1), ("const", "a")])),
            ("const-float", {}, ("const", 1.5)),
+           # floats that need all 17 significant digits, the extremes, signed zero; a complex built from two of them
+           ("const-floats17", {}, ("tuple", [("const", 0.1 + 0.2), ("const", 2 ** 0.5), ("const", 1 / 3), ("const", 5e-324),
+                                             ("const", 1.7976931348623157e308), ("const", -0.0), ("const", 9007199254740993.0),
+                                             ("const", complex(0.1 + 0.2, -(2 ** 0.5)))])),
            ("nested", {}, "nested"),
            ("names", {"co_names": ("n1", "n2"), "co_varnames": ("v1",), "co_filename": "file.py", "co_name": "fn"}, None)]
     if v < (3, 0):
